@@ -13,12 +13,27 @@ SEL_POOL = [".k1", ".k2", ".id", ".g", ".", "^.g", ".items#0.k1", "(get . \"k1\"
             # expressions whose value depends on more than `.`: enclosing inputs, variables bound per record, text evaluated against the input
             "(parse_selection \".k1\")", "(parse_selection \"(+ .id 1)\")", "(set \"x\" .id (: \"x\"))", "(set \"x\" .id (+ (: \"x\") 1))",
             "(map .items (set \"y\" ^.id (+ :y (get . \"n\"))))", "(define \"m\" (.get \"id\") (@ \"m\"))", "@up", "@par", "@twice"]
+# sequences of selections in which one stage binds what another reads (a binding may not outlive the expression, let alone the record)
+COMBOS = [[":v", "(set \"v\" .id .k3)"], [":v", "(set \"v\" .id (get . \"nope\"))", ":v"], ["(default :v \"unset\")", "(set \"v\" (+ .id 100) (.get \"k2\"))"],
+          ["(set \"a\" .id (set \"b\" 1 (+ :a :b)))", "."], ["(keys .)", "(stringify .)"], ["@twice", "(define \"twice\" 0 .k3)", "@twice"],
+          ["(| .k1 (default . 0) ^.id)", "(| . .id ^^.g)"], [".", "(values .)", "(entries .)"]]
 MACROS = ["--set=@up=(concat (stringify ^.id) \"-\" (stringify .n))", "--set=@par=^.g", "--set=@twice=(* (default .id 1) 2)"]
 FILTER_POOL = [".f", "(= .f true)", "(number? .k1)", "(match (default .g \"\") \"a\")", "(< (default .id 0) 20)", "(not (null? .))", "(object? .)"]
 SPLIT_POOL = [".items", ".", "(default .items [])", "(values .)", "(map .items (+ (.get \"n\") 1))"]
 STYLES = [([], True), (["--style=consise"], True), (["--style=pretty"], False), (["--style=one-line", "--utf8-strings"], True),
           (["--output-style=text"], False), (["--output-style=csv"], False), (["--row-seperator=;\n"], False),
           (["--output-style=text", "--items-seperator=|", "--missing-value-keyword=NA", "--headers"], False)]
+
+
+def respelled(rnd, v):
+    """An equal value that is not identical: object members shuffled (at every level), numbers spelled differently."""
+    if v[0] == "obj":
+        m = [(k, respelled(rnd, x)) for k, x in v[1]]
+        rnd.shuffle(m)
+        return ("obj", m)
+    if v[0] == "arr":
+        return ("arr", [respelled(rnd, x) for x in v[1]])
+    return PL.respell_numbers(rnd, v)
 
 
 def gen(cs, rnd, n):
@@ -28,8 +43,11 @@ def gen(cs, rnd, n):
         style, js = rnd.choice(STYLES)
         if "--output-style=csv" in style or "--headers" in style:
             nsel = max(nsel, 1)
-        for k in range(nsel):
-            argv.append("--select=%s =S%d" % (rnd.choice(SEL_POOL), k))
+        picks = [rnd.choice(SEL_POOL) for k in range(nsel)]
+        if rnd.random() < 0.2:
+            picks = list(rnd.choice(COMBOS))
+        for k, e in enumerate(picks):
+            argv.append("--select=%s =S%d" % (e, k))
         if rnd.random() < 0.4:
             argv.append("--filter=" + rnd.choice(FILTER_POOL))
         if rnd.random() < 0.35:
@@ -56,6 +74,10 @@ def gen(cs, rnd, n):
             rnd.shuffle(B)                   # a permutation of A
         elif mode < 0.4 and A:
             B = [rnd.choice(A) for _ in range(nb)]      # repetitions
+        elif mode < 0.55 and A:
+            # every row followed by an equal but not identical one (members in another order, numbers in another spelling)
+            A = [x for r in A for x in (r, respelled(rnd, r))]
+            B = [respelled(rnd, r) for r in B]
         da, db = PL.input_bytes(A), PL.input_bytes(B)
         cs.add({"kind": "rel", "rel": "concat", "cfg": PL.mkcfg(), "input": [], "json": js and True,
                 "runs": [{"argv": argv, "stdin": hexs(da + db)}, {"argv": argv, "stdin": hexs(da)}, {"argv": argv, "stdin": hexs(db)},
